@@ -132,8 +132,9 @@ def evaluate(ctx):
     res = run_model(ctx, lines) if lines else {}
     n = {"programs": 0, "fresh_eq": 0, "pipe_eq": 0, "pipe_skipped": 0}
     fn = {"EQ": 0, "DIFF": 0, "UNSUPPORTED": 0, "PRUNED": 0}
-    frag = {"functions": 0, "inside": 0, "inside_and_EQ": 0}
+    frag = {"functions": 0, "inside": 0, "inside_and_EQ": 0, "inside_and_typed_theorem_applies(stdFn)": 0}
     reasons = {}
+    typed = {"AGREE-OK": 0, "AGREE-BAD": 0, "SKIP": 0, "DISAGREE": 0}
     diffs, samples, distinct = [], [], set()
     streams = {}
     for cid, c in cases.items():
@@ -162,11 +163,20 @@ def evaluate(ctx):
                 diffs.append((cid, f"function {name}: {v}"))
         for name, why in _kv(r[3]):
             frag["functions"] += 1
-            if why == "in":
+            if why in ("in", "in(typed)"):
                 frag["inside"] += 1
                 frag["inside_and_EQ"] += verdicts.get(name) in ("EQ", "PRUNED")
+                frag["inside_and_typed_theorem_applies(stdFn)"] += why == "in(typed)"
             else:
                 reasons[why] = reasons.get(why, 0) + 1
+        if len(r) >= 5:
+            for part in r[4].split(","):
+                if "=" in part:
+                    name, v = part.split("=", 1)
+                    key = v.split("(")[0]
+                    typed[key] = typed.get(key, 0) + 1
+                    if key == "DISAGREE":
+                        diffs.append((cid, f"typing mirror GoTyping.fnOKT vs Go.check at {name}: {v}"))
         if len(samples) < 3 and cid.startswith("gen"):
             samples.append({"id": cid, "fresh": fresh, "pipeline": pipe, "functions": r[2][:300], "fragment": r[3][:300],
                             "anf_chars": len(c[2]), "go_chars": len(c[3])})
@@ -219,6 +229,7 @@ def evaluate(ctx):
         "InGoFragment": dict(frag, outside=frag["functions"] - frag["inside"],
                              reasons_outside=dict(sorted(reasons.items(), key=lambda kv: -kv[1]))),
         "InGoFragment_history": FRAGMENT_HISTORY,
+        "typing_mirror(GoTyping.fnOKT vs Go.check, per real Go function)": typed,
         "behaviour_oracle(anf vs go)": b,
         "samples": samples or [{"id": "none"}],
         "impl_oracle_failures": len(found),
